@@ -481,6 +481,7 @@ class Provenance(MutableSequence[Expression]):
 
         else:
             # If units were not provided, we will gather all unique units we encounter in the data array.
+            units_inferred = units is None
             if units is None:
                 if data is None:
                     raise ValueError("Both units and data are set to None.")
@@ -504,6 +505,9 @@ class Provenance(MutableSequence[Expression]):
                 raise ValueError("The data must be an integer array.")
 
             if data.ndim == 1:
+                if units_inferred:
+                    # The data holds arbitrary unit identifiers which need to be mapped to unit positions.
+                    data = np.searchsorted(np.array(units), data)
                 data = np.stack(
                     [np.repeat(data, num_candidates - 1), np.tile(np.arange(1, num_candidates), len(data))], axis=-1
                 )
